@@ -24,10 +24,24 @@ def use_cycle(rng):
     for i in range(n):
         uses = "".join(f'<use xlink:href="#g{(i + 1) % n}" x="{k}"/>' for k in range(fan))
         parts.append(f'<g id="g{i}">{_rect(rng)}{uses}</g>')
+    label = f"use_cycle_{n}_fan{fan}"
+    k = rng.random()
+    if k < 0.45:
+        # something with an id that is NOT part of the cycle leads into it - before, inside or after
+        # the cycle's elements in document order
+        tgt = rng.randrange(n)
+        entry = rng.choice((f'<g id="icon">{_rect(rng)}<use xlink:href="#g{tgt}"/></g>', f'<use id="e0" xlink:href="#g{tgt}"/>',
+                            f'<g id="e1"><g><use xlink:href="#g{tgt}" x="2"/></g></g>'))
+        parts.insert(rng.choice((0, 0, len(parts) // 2, len(parts))), entry)
+        label += "_entry"
     body = "".join(parts)
+    if 0.45 <= k < 0.6:
+        # the whole cycle sits inside an ancestor that has an id of its own
+        body = f'<g id="wrap">{body}</g>'
+        label += "_wrapped"
     if rng.random() < 0.5:
         body = f"<defs>{body}</defs>" + '<use xlink:href="#g0"/>'
-    return HDR + body + "</svg>", f"use_cycle_{n}_fan{fan}"
+    return HDR + body + "</svg>", label
 
 
 def clip_cycle(rng):
